@@ -19,7 +19,7 @@
     order and how often is modelled by hand and tied by the differential only; the result mapping is proved for the client half
     (C03_returns) and for errors (C03_errno_...). *)
 From Coq Require Import ZArith NArith String List Bool.
-From P9V Require Import gen.ConstGen gen.ClientGen Client.Chunk Client.ClientModel Client.ClientProofs Client.ChunkProofs Client.Errs Client.Composed Client.HandlerTie gen.ResultGen Client.Results Client.PathSeq Client.PathSeqTie.
+From P9V Require Import gen.ConstGen gen.ClientGen Client.Chunk Client.ClientModel Client.ClientProofs Client.ChunkProofs Client.Errs Client.Composed Client.HandlerTie gen.ResultGen Client.Results Client.PathSeq Client.PathSeqTie Client.PathSeqTieProofs.
 Import ListNotations.
 Open Scope string_scope.
 
